@@ -29,6 +29,14 @@ using L_K10 = List<D<P, u8>, D<V, W8>, D<P, u8>>;
 using L_K11 = List<D<F, u16, 4>, D<P, u8>>;
 using L_K12 = List<D<P, u8>, D<P, Trk>, D<P, u8>, D<P, u8>>;
 using L_K13 = List<D<P, sz, 8>, D<V, u8, 4>, D<P, u8>>;
+// padding between elements only (no padding between fields, the over-aligned parameter is not the first one)
+using L_K14 = List<D<P, u32>, D<P, u32, 4>, D<P, u8>>;
+using L_K15 = List<D<P, u16>, D<P, u8, 2>, D<P, u8>>;
+// padding in front of an aligned parameter that depends on the fixed size
+using L_K16 = List<D<F, u8>, D<P, u16, 2>>;
+// unsigned bytes only (byte-wise <) with an over-aligned byte parameter behind a span
+using L_K17 = List<D<P, u8>, D<V, u8>, D<P, u8, 4>>;
+using L_K18 = List<D<P, u8>, D<P, u8, 2>, D<F, u8>>;
 }  // namespace hx
 
 #define HX_CAT_(a, b) a##b
